@@ -33,7 +33,29 @@ check('C12', 'Hypothesis-generated inputs under four token sets; shape invariant
       'Sampling only. The walk trusts .children / Table.header as the definition of the tree.',
       'DESIGN.md 5/C12')
 
+check('C08', 'Hypothesis-generated hostile and pooled inputs x options; strict output scanner, placeholder accounting for raw HTML, skeleton invariance under text neutralisation; exhaustive code-point sweep of the escaping helpers',
+      'hypothesis-sharded + enumeration-pool',
+      'Output of HtmlRenderer for pooled and payload-bearing inputs under all option combinations is tokenised by a strict own scanner '
+      '(vocabulary, nesting, attribute syntax, escaped text); raw HTML is replaced by placeholders that must come out exactly once; the same '
+      'tree rendered with neutralised text must give the same tag skeleton. escape_html_text/escape_url are swept over every Unicode scalar value.',
+      'Sampling except for the helper sweep (complete for single code points). Trusts vf/oracle/htmlscan.py.',
+      'DESIGN.md 5/C08')
+
+check('C15', 'Hypothesis-generated texts supplied in every input form, differential comparison of outputs, real CLI subprocess batches',
+      'hypothesis-sharded',
+      'Each sampled text is supplied as str (with/without final newline), list / tuple / iterator of lines with and without terminators, '
+      'StringIO, real file object, in-process CLI and (batched) a real python -m mistletoe subprocess on 1..8 files; all outputs must be byte-identical.',
+      'Domain restricted to \\n-terminated text as the property states. Sampling only.',
+      'DESIGN.md 5/C15')
+
+check('C18', 'Hypothesis-generated inputs meeting each side condition; differential comparison of contrib renderer output with HtmlRenderer output',
+      'hypothesis-sharded',
+      'For sampled inputs that do not use the respective extension, Toc/GithubWiki/MathJax/Pygments output must equal HtmlRenderer output '
+      'byte for byte under the same options (MathJax minus its script line).',
+      'Sampling only; side conditions evaluated on the input text and on the HtmlRenderer parse.',
+      'DESIGN.md 5/C18')
+
 _PENDING = 'check not built yet in this revision (work in progress; technique applies, see DESIGN.md section 5)'
-for _p in ['C03', 'C04', 'C05', 'C07', 'C08', 'C09', 'C10', 'C11', 'C13', 'C14', 'C15',
-           'C16', 'C17', 'C18', 'C19']:
+for _p in ['C03', 'C04', 'C05', 'C07', 'C09', 'C10', 'C11', 'C13', 'C14',
+           'C16', 'C17', 'C19']:
     NOT_YET[_p] = _PENDING
